@@ -22,7 +22,9 @@ import (
 	"verifsim/core"
 	_ "verifsim/shapes/doc"
 	_ "verifsim/shapes/flat"
+	_ "verifsim/shapes/flatb"
 	_ "verifsim/shapes/nested"
+	_ "verifsim/shapes/nestedb"
 	_ "verifsim/shapes/person"
 	_ "verifsim/shapes/rep3"
 )
